@@ -754,6 +754,34 @@ func (c *SpecCtx) call(e *SExpr) *Val {
 	case "box":
 		x := c.eval(e.Args[0])
 		return &Val{T: X.E.Box(x.T, x.GT), GT: types.NewInterfaceType(nil, nil)}
+	case "isfield": // isfield(a, obj, f): the address value a is &obj.f
+		a := c.eval(e.Args[0])
+		obj := c.eval(e.Args[1])
+		fname := exprText(e.Args[2])
+		if a.A == nil {
+			c.fail("isfield: %s is not an address value", e.Args[0].Src)
+		}
+		p, ok := obj.GT.Underlying().(*types.Pointer)
+		if !ok {
+			c.fail("isfield: %s is not a pointer", e.Args[1].Src)
+		}
+		stT, ok := p.Elem().Underlying().(*types.Struct)
+		if !ok {
+			c.fail("isfield: %s does not point to a struct", e.Args[1].Src)
+		}
+		fi := -1
+		for k := 0; k < stT.NumFields(); k++ {
+			if stT.Field(k).Name() == fname {
+				fi = k
+			}
+		}
+		if fi < 0 {
+			c.fail("isfield: no field %s", fname)
+		}
+		if a.A.Kind != AddrObj || len(a.A.Path) != 1 || a.A.Path[0].Field != fi || a.A.Path[0].Index != nil || typeKey(a.A.ObjT) != typeKey(p.Elem()) {
+			return &Val{T: ts.False(), GT: boolT}
+		}
+		return &Val{T: ts.Eq(a.A.Ref, obj.T), GT: boolT}
 	case "held", "wheld":
 		lk := c.lockRef(e.Args[0])
 		v := ts.Select(X.heap(c.state(), lk.heap, ArraySort(SInt, SInt)), lk.idx)
